@@ -230,15 +230,3 @@ Definition run_case (x : list N * option (list N) * option (list N) * (bool * bo
                    end in
   let bc := match b with Plain _ => 0 | ByMiddleware e _ => enc_code e | ByProducer e _ => enc_code e end in
   (hk, he, bc).
-
-(* compact case files: a string travels as one number, little-endian base 2^21 digits (code point + 1) *)
-Definition pack_base : N := 2097152.
-Fixpoint unpack_fuel (fuel : nat) (n : N) : list N :=
-  match fuel with
-  | O => []
-  | S f => if n =? 0 then [] else (n mod pack_base - 1) :: unpack_fuel f (n / pack_base)
-  end.
-Definition unpack (n : N) : list N := unpack_fuel (S (N.to_nat (N.log2 n))) n.
-Definition run_parse_packed (n : N) : list N := run_parse (unpack n).
-Definition run_case_packed (x : list N * option N * option N * (bool * bool * bool * bool)) : N * N * N :=
-  let '(cfg, std, cus, fl) := x in run_case (cfg, option_map unpack std, option_map unpack cus, fl).
